@@ -29,6 +29,8 @@ pub enum Oc {
     PanicStr,
     PanicCustom,
     PanicI32,
+    /// The callback panics synchronously, before it returns its future.
+    PanicEager,
 }
 
 impl Oc {
@@ -71,6 +73,7 @@ pub fn token_for(oc: Oc, key: &str, inv: usize) -> Option<Tok> {
         Oc::PanicStr => Some(Tok::StaticStr(format!("stok:{key}#{inv}"))),
         Oc::PanicCustom => Some(Tok::Custom(h)),
         Oc::PanicI32 => Some(Tok::I32((h & 0x7fff_ffff) as i32)),
+        Oc::PanicEager => Some(Tok::Str(format!("etok:{key}#{inv}"))),
     }
 }
 
@@ -345,8 +348,45 @@ pub async fn callback(key: String, world: Option<&mut W>, reason: Option<Reason>
     }
 }
 
+/// If the next invocation of `key` is planned to panic eagerly, consumes it, logs it and panics
+/// right here (i.e. in the synchronous part of the user callback).
+pub fn eager_check(key: &str, world: Option<&W>, reason: Option<Reason>, args: Option<String>) {
+    let hit = with_lab(|l| {
+        let inv = l.inv.get(key).copied().unwrap_or(0);
+        let e = l.plan.get(key).and_then(|v| v.get(inv)).copied();
+        if e.is_some_and(|e| e.oc == Oc::PanicEager) {
+            *l.inv.entry(key.to_string()).or_default() += 1;
+            for phase in [Phase::Enter, Phase::Exit] {
+                let seq = l.tick();
+                l.activity += 1;
+                l.calls.push(Call {
+                    seq,
+                    key: key.to_string(),
+                    inv,
+                    phase,
+                    world: world.map(|w| w.id),
+                    counter: world.map_or(0, |w| w.counter),
+                    oc: Oc::PanicEager,
+                    wn: WnOc::Ok,
+                    reason: if phase == Phase::Enter { reason.clone() } else { None },
+                    args: if phase == Phase::Enter { args.clone() } else { None },
+                    at: Instant::now(),
+                });
+            }
+            Some(inv)
+        } else {
+            None
+        }
+    });
+    if let Some(inv) = hit {
+        std::panic::panic_any(format!("etok:{key}#{inv}"));
+    }
+}
+
 pub fn step_fn(w: &mut W, ctx: StepCtx) -> LocalBoxFuture<'_, ()> {
-    async move { callback(format!("step:{}", ctx.step.value), Some(w), None, None).await }.boxed_local()
+    let key = format!("step:{}", ctx.step.value);
+    eager_check(&key, Some(w), None, None);
+    async move { callback(key, Some(w), None, None).await }.boxed_local()
 }
 
 /// Second definition for `amb` steps; must never actually be invoked.
